@@ -60,6 +60,11 @@ CLAIMED = {
     text='The checked object is the I/O surface: one-shot iterators (plain and raising-if-advanced), generators, map/zip/enumerate/reversed objects, StringIO, defaultdicts and containers logging every method; after a check at any entry point and draw no consuming or mutating call was made, the stream still yields its first element, len(defaultdict) and contents are unchanged and the wrapped callable received the identical object. No schedule is involved; the simulator contributes the draw and the stubs. Evidence, not proof.',
     note='Trusted: the stubs and their post-check inspection; validators (user callables) are out of scope here.',
     design='5/C10'),
+ 'C11': dict(
+    technique='deterministic simulation, fault injection at user-callback seams (wrapped callable, validators, instance/subclass hooks, Literal __eq__): failure on the n-th invocation placed in fast path / explanation path / later call; identity of the escaping exception as oracle. Second half (bad hints) is input-driven monitoring',
+    text='Fault half: seeded placement of a raising user callback (9 sites x 6 hint shapes x 8 exception classes incl. TypeError x invocation 1-3 x 6 entry points); the very same exception object must escape unchanged, never be swallowed into a verdict, replaced by a violation, or remembered on the next healthy call. Monitored half: 28 valid/unsupported/malformed/unhashable/non-hint objects x 7 APIs; only public beartype.roar exceptions of the right family and BeartypeWarning subclasses may escape. Evidence, not proof; the second half is input-driven and the simulator adds only generator and replay.',
+    note='Trusted: classification of beartype\'s own hint-validation probes of __instancecheck__/__subclasscheck__ (not counted as call-time invocations), the pool of bad hints.',
+    design='5/C11'),
  'C14': dict(
     technique='deterministic simulation: seeded API-operation histories (same-named classes, deletion + explicit GC, cache clears, failing operations, define-later) with a fresh-state oracle per query under a fixed sampler draw',
     text='Seeded search over histories of public-API operations preceding each query; every query is answered a second time after beartype\'s state has been put back to pristine and only the operations constructing its arguments replayed (same draw); answers must be equal, and a query asked twice in a row must answer identically. Violations that depend on allocation history (id() reuse) are re-confirmed by re-executing the whole batch in an identical fresh worker. Evidence, not proof.',
@@ -81,8 +86,7 @@ NOT_APPLICABLE = {
  'C20': 'infer_hint uses the On strategy by default and is a deterministic function of the object; the round trip through is_bearable is an input property (the sampler matters only through C01)',
 }
 
-PENDING = {k: 'not claimed yet: the simulation engine for this property (DESIGN.md section 5) is not built at this commit' for k in
-           ['C11']}
+PENDING = {}
 
 def main():
     checks = []
